@@ -202,16 +202,28 @@ def race_drive(draw, h, cfg):
     step(h, ['write', 'in/a', draw(st.integers(0, 2))])
     vers = {}
     reuse = 'outer' in h.prog_rel['funcs']
-    shape = draw(st.sampled_from(['first', 'first', 'rebuild', 'changed']))
+    shape = draw(st.sampled_from(['first', 'first', 'rebuild', 'changed', 'changed']))
     if reuse:
         step(h, ['root', 1])
         step(h, ['build', vers, None, None, {'sched': {'preempt': []}}])
         step(h, ['root', 0])
         h.stats['c08_race_reuse_scenarios'] += 1
+        if draw(st.booleans()):
+            tgt = [s_[1] for blk in [f_['body'] for f_ in h.prog_rel['funcs'].values()]
+                   for s_ in iter_stmts(blk) if s_[0] == 'bf' and s_[2] == 'f']
+            step(h, draw(st.sampled_from([['write', 'in/a', 1]] + ([['rm', tgt[0]], ['write', tgt[0], 0], ['touch', tgt[0]]] if tgt else []))))
     elif shape != 'first':
         step(h, ['build', vers, None, None, {'sched': {'preempt': []}}])
         if shape == 'changed':
-            step(h, draw(st.sampled_from([['write', 'in/a', 1], ['touch', 'in/a'], ['rm', 'o/x'], ['rm', 'o/d/x'], ['write', 'o/d/e/x', 0]])))
+            # a change that makes the racing build re-execute the shared function (mostly aimed at its own output)
+            tgt = [s_[1] for blk in [h.prog_rel['root']] + [f_['body'] for f_ in h.prog_rel['funcs'].values()]
+                   for s_ in iter_stmts(blk) if s_[0] == 'bf' and s_[2] == 'f']
+            opts_ = [['write', 'in/a', 1], ['touch', 'in/a']]
+            if tgt:
+                opts_ += [['rm', tgt[0]], ['rm', tgt[0]], ['write', tgt[0], 0], ['touch', tgt[0]]]
+            else:
+                opts_ += [['rm', 'o/x'], ['write', 'o/d/e/x', 0]]
+            step(h, draw(st.sampled_from(opts_)))
     if h.dead:
         return
     h.apply(['save'])
@@ -298,7 +310,7 @@ def plan(tier, seed):      # noqa: F811
     shards = _seq_plan(tier, seed)
     for sh in shards:
         sh['part'] = 'seq'
-    n = 6 if tier == 'quick' else 250
+    n = 10 if tier == 'quick' else 250
     for i in range(16):
         shards.append({'part': 'race', 'seed': seed * 7001 + i, 'examples': n, 'tier': tier, 'i': i})
     return shards
